@@ -50,6 +50,24 @@ func c02ReadBack(c *kit.Case, d *gen.Doc, keyPrefix string) {
 	}
 	if meta.Catalog == nil || meta.Catalog.Pages != d.Pages {
 		fail("catalog", "catalog pages read %v, written %v", meta.Catalog, d.Pages)
+	} else {
+		got, want := meta.Catalog, &d.Cat
+		switch {
+		case got.Version != want.Version:
+			fail("catalog/Version", "catalog Version read %v, written %v", got.Version, want.Version)
+		case got.PageLayout != want.PageLayout || got.PageMode != want.PageMode:
+			fail("catalog/PageLayout-PageMode", "catalog PageLayout/PageMode read %q/%q, written %q/%q", got.PageLayout, got.PageMode, want.PageLayout, want.PageMode)
+		case got.Lang != want.Lang:
+			fail("catalog/Lang", "catalog Lang read %v, written %v", got.Lang, want.Lang)
+		case !gen.Same(want.ViewerPreferences, got.ViewerPreferences):
+			fail("catalog/ViewerPreferences", "catalog ViewerPreferences read %s, written %s", gen.Canon(got.ViewerPreferences), gen.Canon(want.ViewerPreferences))
+		case !gen.Same(want.URI, got.URI):
+			fail("catalog/URI", "catalog URI read %s, written %s", gen.Canon(got.URI), gen.Canon(want.URI))
+		default:
+			if want.Version != 0 || want.PageLayout != "" || want.PageMode != "" || want.ViewerPreferences != nil || want.URI != nil {
+				c.R.Count("catalogs_with_optional_entries_read_back", 1)
+			}
+		}
 	}
 	if d.Title != "" || d.Author != "" || d.Custom != nil {
 		if meta.Info == nil || string(meta.Info.Title) != d.Title || string(meta.Info.Author) != d.Author {
